@@ -61,6 +61,11 @@ def cases(ctx):
             # four gates that hang off the cone without being observed stay as well
             if j % 4 != 3:
                 c.remove_unloaded(inputs=(j % 2 == 0))
+        if wide and j % 10 == 9:
+            # a circuit that went through limit_fanin before (helper gates <g>_limit_fanin_<i> are already there)
+            import circuitgraph as cg
+
+            c = cg.tx.limit_fanin(c, 3)
         p = proj(c)
         if not p["n"] or not any(p["out"]):
             continue
